@@ -176,6 +176,7 @@ class EnvBase:
         self.produced = []
         self.dirty = False
         self.surprises = []         # outcomes `predict` did not name (evidence + reported)
+        self.lib0 = {}              # id(result operator) -> its library-owned state at the moment it was returned
 
     # partners for binary algebra, by size (built lazily; they wrap caller-owned arrays)
     def partner(self, what, n):
@@ -921,6 +922,7 @@ class Env(EnvBase):
     def reset(self):
         self.produced = []          # [(label, operator, snapshot, full snapshot | None)] operator values returned by earlier steps
         self.dirty = False
+        self.lib0 = {}
         if self.lib_changes is None:
             self.lib_changes = {}       # "<Class>.<field>" -> how often the LIB_STATE exclusion hid a change (evidence)
 
@@ -931,7 +933,10 @@ class Env(EnvBase):
         skip = has_lib and not any(lib_state_is_fresh(o, self) for o in _lib_ops(op))
         if has_lib and not skip:
             self.lib_changes["shared-with-caller"] = self.lib_changes.get("shared-with-caller", 0) + 1
-        self.produced.append((label, op, snap_op(op, skip=skip), _lib_fields(op) if skip else None, skip))
+        # the library-owned state as it was when the operator was RETURNED (recorded by apply_op, before any fingerprint /
+        # snapshot: their to_dense() is itself a product with the operator and already pops kwargs / fills info)
+        lib0 = (self.lib0.pop(id(op), None) or _lib_fields(op)) if skip else None
+        self.produced.append((label, op, snap_op(op, skip=skip), lib0, skip))
 
     def check(self, step, involved, full=False):
         """-> differences between the caller's values and their snapshots.  After every operation:
@@ -1029,6 +1034,9 @@ def apply_op(env, name, A, last):
             if pred is not None:
                 env.surprises.append({"op": name, "operand_class": type(A).__name__, "annotations": list(ann_names(A)),
                                       "predicted": pred, "raised": "nothing (the call succeeded)"})
+            for r in (res if isinstance(res, (tuple, list)) else [res]):
+                if isinstance(r, LinearOperator) and _has_lib_state(r):
+                    env.lib0[id(r)] = _lib_fields(r)
             return "ok", res
 
 
